@@ -368,7 +368,8 @@ func c15Exec(sc *c15Scn, cancel string, cancelStep, cancelTick int, log *core.Lo
 			panic("verif: run ignored the cancelled context for more than 60x the bound")
 		}
 		if steps > 3_000_000 {
-			core.Fatal("C15: %s exceeded 3M steps", sc.Arch)
+			// every archetype is bounded (the longest takes well under a million steps)
+			panic("verif: the run was still executing after 3 million VM steps")
 		}
 	}
 	defer func() { interp.VerifStep = nil }()
